@@ -56,6 +56,8 @@ def _history(rng, d, length):
             for n in need:
                 variant = rng.choice((0, 0, 1))
                 kw[n] = (f"v{variant}_{n}" if n in dag.ROOTS else f"SUP{variant}_{n}")
+                if n in dag.ROOTS and rng.random() < 0.25:
+                    kw[n] = {"__array__": variant}  # an array and its transposed view (same buffer, different value)
             # sometimes leave a defaulted root to its default
             dflt = dag.shared_defaults(d)
             for n in list(kw):
@@ -108,8 +110,20 @@ def _apply_mutation(p, d, op, version):
         p.replace(new)
 
 
+def _materialise(kw):
+    import numpy as np
+    out = {}
+    for k, v in kw.items():
+        if isinstance(v, dict) and "__array__" in v:
+            a = np.arange(9).reshape(3, 3)
+            v = a if v["__array__"] == 0 else a.T
+        out[k] = v
+    return out
+
+
 def _check(case):
     d, ctype, cached, hist = case["dag"], case["cache"], set(case["cached"]), case["history"]
+    hist = [dict(op, kwargs=_materialise(op["kwargs"])) if op["op"] == "call" else op for op in hist]
     tmp = tempfile.mkdtemp(prefix="vf_c09_") if ctype == "disk" else None
     kw = {"cache_kwargs": {"cache_dir": tmp, "lru_shared": False}} if ctype == "disk" else \
         ({"cache_kwargs": {"shared": False}} if ctype in ("lru", "hybrid") else {})
@@ -146,7 +160,7 @@ def _check(case):
             finally:
                 progs.set_log(None)
             if op["full_output"]:
-                diff = {k: (got.get(k), v) for k, v in want.items() if got.get(k) != v}
+                diff = {k: (progs.fz(got.get(k)), progs.fz(v)) for k, v in want.items() if progs.fz(got.get(k)) != progs.fz(v)}
                 if diff:
                     bad.append(f"op{n} call {op['output']} full_output differs: {str(diff)[:300]}")
             elif got != want:
